@@ -799,6 +799,124 @@ func TestC08Shadowing(t *testing.T) {
 	}
 }
 
+// generated form of the same rule: which binding of a name does a read see?
+
+type c08Shadow struct {
+	Name   string   `json:"name"`
+	Global bool     `json:"global"` // the set's Globals hold the name
+	Ctx    bool     `json:"ctx"`    // the caller's context holds the name
+	Binds  []string `json:"binds"`  // tags binding the name, outermost first: macro (outermost only) | with | for | set
+	Read   string   `json:"read"`   // direct | include | lazyinclude | include-with | include-only | nested-include
+}
+
+func (cs *c08Shadow) source() string {
+	read := "{{ " + cs.Name + " }}"
+	switch cs.Read {
+	case "include":
+		read = `{% include "/r.tpl" %}`
+	case "lazyinclude":
+		read = `{% include incname %}`
+	case "include-with":
+		read = `{% include "/r.tpl" with ` + cs.Name + `="pair" %}`
+	case "include-only":
+		read = `{% include "/r.tpl" with unrelated=1 only %}`
+	case "nested-include":
+		read = `{% include "/rr.tpl" %}`
+	}
+	src := "[" + read + "]"
+	for i := len(cs.Binds) - 1; i >= 0; i-- {
+		val := fmt.Sprintf("b%d", i)
+		switch cs.Binds[i] {
+		case "with":
+			src = `{% with ` + cs.Name + `="` + val + `" %}` + src + `{% endwith %}`
+		case "for":
+			src = `{% for ` + cs.Name + ` in ["` + val + `"] %}` + src + `{% endfor %}`
+		case "set":
+			src = `{% set ` + cs.Name + ` = "` + val + `" %}` + src
+		case "macro":
+			src = `{% macro mac(` + cs.Name + `) %}` + src + `{% endmacro %}{{ mac("` + val + `") }}`
+		}
+	}
+	return src
+}
+
+func checkC08Shadow(c any, r *Rec) error {
+	cs := c.(*c08Shadow)
+	files := map[string]string{"/r.tpl": "{{ " + cs.Name + " }}", "/rr.tpl": `<{% include "/r.tpl" %}>`}
+	files["/root.tpl"] = cs.source()
+	set := pongo2.NewSet("c08shadow", newMemLoader(files))
+	if cs.Global {
+		set.Globals[cs.Name] = "GLB"
+	}
+	tpl, err := set.FromFile("/root.tpl")
+	if err != nil {
+		return fmt.Errorf("%q does not compile: %v", files["/root.tpl"], err)
+	}
+	outer := ""
+	if cs.Global {
+		outer = "GLB"
+	}
+	if cs.Ctx {
+		outer = "CTX"
+	}
+	want := outer
+	if len(cs.Binds) > 0 {
+		want = fmt.Sprintf("b%d", len(cs.Binds)-1)
+	}
+	switch cs.Read {
+	case "include-with":
+		want = "pair"
+	case "include-only":
+		want = ""
+		if cs.Global {
+			want = "GLB"
+		}
+	case "nested-include":
+		want = "<" + want + ">"
+	}
+	want = "[" + want + "]"
+	for round := 0; round < 2; round++ {
+		ctx := pongo2.Context{"incname": "/r.tpl"}
+		if cs.Ctx {
+			ctx[cs.Name] = "CTX"
+		}
+		got, xerr := tpl.Execute(ctx)
+		if xerr != nil {
+			return fmt.Errorf("%q: unexpected error %v", files["/root.tpl"], xerr)
+		}
+		if got != want {
+			return fmt.Errorf("shadowing (tag bindings > context > globals): %q with global=%v context=%v rendered %q, want %q (render %d)", files["/root.tpl"], cs.Global, cs.Ctx, got, want, round+1)
+		}
+	}
+	r.Class("read:" + cs.Read)
+	if len(cs.Binds) > 0 && (cs.Ctx || cs.Global) {
+		r.NonTrivial(fmt.Sprintf("%v|%v|%v|%s|%s", cs.Binds, cs.Global, cs.Ctx, cs.Read, cs.Name))
+	}
+	return nil
+}
+
+var _ = register(&propSpec{
+	ID:   "C08.shadow",
+	Rule: "one name held by any subset of {set Globals, caller context} and bound by 0-4 nested tags (macro parameter outermost, with, for, set), read directly or inside an included template (static, lazily named, nested two deep, with a pair of the same name, with only); the read must see the innermost tag binding, else the context entry, else the global, else nothing (a with-pair wins inside the include; with only the included template sees the pairs and the globals). Rendered twice. Non-trivial: at least one tag binding shadows a context entry or global.",
+	Gen: func(t *rapid.T) any {
+		cs := &c08Shadow{Name: pick(t, "name", []string{"v", "name", "k2", "Item"}), Global: drawBool(t, "global"), Ctx: drawBool(t, "ctx")}
+		n := drawInt(t, 0, 4, "nbinds")
+		for i := 0; i < n; i++ {
+			kinds := []string{"with", "for", "set"}
+			if i == 0 {
+				kinds = append(kinds, "macro")
+			}
+			cs.Binds = append(cs.Binds, pick(t, "bind", kinds))
+		}
+		cs.Read = pick(t, "read", []string{"direct", "include", "lazyinclude", "include-with", "include-only", "nested-include"})
+		return cs
+	},
+	New:   func() any { return &c08Shadow{} },
+	Check: checkC08Shadow,
+})
+
+func TestC08Shadow(t *testing.T) { runProp(t, "C08.shadow") }
+
 // ---- C08.hetero: one parsed path, applied to values of different Go types in one render ------
 
 type c08Hetero struct {
